@@ -3,6 +3,7 @@ package bpx
 import (
 	"fmt"
 	"os"
+	"runtime"
 	"runtime/pprof"
 	"strings"
 	"syscall"
@@ -20,6 +21,7 @@ type scenRow struct {
 	Transitions int64  `json:"transitions"`
 	Ranges      int64  `json:"range_iterators"`
 	Alphabet    int    `json:"alphabet_keys"`
+	Tails       int64  `json:"continuations,omitempty"`
 	Exhaustive  bool   `json:"exhaustive"`
 }
 
@@ -35,12 +37,12 @@ func runScenarios(sink Sink, scs []*Scenario, hook Hook) (rows []scenRow, states
 			exhaustive = false
 			break
 		}
-		c0 := CPUSeconds()
+		c0, t0, a0 := CPUSeconds(), time.Now(), allocGB()
 		st := Explore(sink, sc, hook)
 		if os.Getenv("VERIF_VERBOSE") != "" {
-			fmt.Printf("  %-44s depth=%d states=%d transitions=%d cpu=%.1fs\n", sc.Name, st.DepthDone, st.States, st.Transitions, CPUSeconds()-c0)
+			fmt.Printf("  %-44s depth=%d states=%d transitions=%d (tails=%d, %d of the transitions) cpu=%.1fs wall=%.1fs alloc=%.2fGB\n", sc.Name, st.DepthDone, st.States, st.Transitions, st.Tails, st.TailTrans, CPUSeconds()-c0, time.Since(t0).Seconds(), allocGB()-a0)
 		}
-		rows = append(rows, scenRow{sc.Name, st.DepthDone, st.States, st.Transitions, st.Ranges, len(sc.Keys), st.Exhaustive})
+		rows = append(rows, scenRow{sc.Name, st.DepthDone, st.States, st.Transitions, st.Ranges, len(sc.Keys), st.Tails, st.Exhaustive})
 		states += st.States
 		trans += st.Transitions
 		ranges += st.Ranges
@@ -90,6 +92,16 @@ func DumpPrefills() {
 	}
 }
 
+// allocGB is the cumulative number of bytes allocated by this process (load-independent cost measure, developer aid).
+func allocGB() float64 {
+	if os.Getenv("VERIF_VERBOSE") == "" {
+		return 0
+	}
+	var ms runtime.MemStats
+	runtime.ReadMemStats(&ms)
+	return float64(ms.TotalAlloc) / 1e9
+}
+
 // CPUSeconds is the user+system CPU time consumed by this process so far.
 func CPUSeconds() float64 {
 	var ru syscall.Rusage
@@ -109,6 +121,18 @@ func StartProfile() func() {
 	}
 	pprof.StartCPUProfile(f)
 	return func() { pprof.StopCPUProfile(); f.Close() }
+}
+
+// c23Opts switches on what only C23 explores: hidden-state-aware merging, the save/prune continuation from every
+// new state and after every Rollback/LoadVersion, rebalancing-step classification, by-index lookups for every index.
+func c23Opts(scs []*Scenario) []*Scenario {
+	for _, sc := range scs {
+		sc.Hidden, sc.Tail, sc.TailAbandon, sc.Events = true, true, sc.Rollback, true
+		if sc.Probe != nil {
+			sc.Probe = &Probe{Keys: sc.Probe.Keys, AllIdx: true}
+		}
+	}
+	return scs
 }
 
 // MainC23 is the parent (B=4 build) of harness c23.
@@ -134,7 +158,7 @@ func MainC23() {
 	}
 	sinkA := BudgetSink{Sink: VKSink{r}, Deadline: time.Now().Add(aBudget), Hit: &hitA}
 	t0 := time.Now()
-	rows, states, trans, ranges, underfull, exA := runScenarios(sinkA, ScenariosA(r.Thorough()), nil)
+	rows, states, trans, ranges, underfull, exA := runScenarios(sinkA, c23Opts(ScenariosA(r.Thorough())), nil)
 	wallA := time.Since(t0).Seconds()
 	if hitA {
 		exA = false
@@ -179,7 +203,7 @@ func ChildC23(sink Sink) map[string]any {
 		sink.Violation("B32 prefill failed: "+err.Error(), map[string]any{"error": err.Error()})
 		return map[string]any{}
 	}
-	rows, states, trans, ranges, underfull, ex := runScenarios(sink, scs, nil)
+	rows, states, trans, ranges, underfull, ex := runScenarios(sink, c23Opts(scs), nil)
 	if len(rows) > 0 {
 		sink.Sample(map[string]any{"scale": "B (B=32)", "example_scenario": rows[len(rows)-1]})
 	}
